@@ -215,14 +215,29 @@ def rule_boolean(repo, rule):
             boolsyms = {}
             if fi.cls is not None and fi.cls.name == "LinCombBool":
                 boolsyms[fi.params[0]] = "self is a LinCombBool"
+            # a wire with its own booleanity constraint b*(1-b) = 0 emitted ahead of the construction (on this path)
+            explicit_ = {}
+            from ..bitnorm import _is_booleanity
+            from ..loader import precedes as _prec2
+            for st_ in ast.walk(fi.node):
+                if isinstance(st_, ast.Expr) and isinstance(st_.value, ast.Call) and own(fi, st_) and _prec2(fi.node, st_, c):
+                    for x_ in ast.walk(arg):
+                        if isinstance(x_, ast.Name) and _is_booleanity(st_, x_.id) and any(st_ is s2 or any(st_ is y_ for y_ in ast.walk(s2))
+                                                                                              for s2 in [fi.node]):
+                            # the constraint must lie on this path: no governing test of it may be false here
+                            gov_ = [p_ for p_ in parents(st_) if isinstance(p_, ast.If)]
+                            if all(any(t_ is g_.test for t_, _pol in path.conds) for g_ in gov_):
+                                explicit_[x_.id] = "explicit booleanity constraint %s" % norm(st_.value)[:50]
             env = {k: P.sym(k) for k in boolsyms}
             for step in path.steps:
-                if step[0] == "cond" and step[2] is True and isinstance(step[1], ast.Call) and norm(step[1].func) == "isinstance" \
-                        and len(step[1].args) == 2 and isinstance(step[1].args[0], ast.Name) \
-                        and norm(step[1].args[1]).split(".")[-1] == "LinCombBool" and step[1].args[0].id not in env:
-                    # the type test on this path says the operand is a LinCombBool: its wire carries a bit
-                    boolsyms[step[1].args[0].id] = "a LinCombBool on this path (isinstance test)"
-                    env[step[1].args[0].id] = P.sym(step[1].args[0].id)
+                if step[0] == "cond":
+                    # what the outcome of this test says for certain (not / and-true / or-false are taken apart): a type test for
+                    # LinCombBool, or a call of a helper that answers "is a bit" - the operand's wire carries a bit on this path
+                    for at_, pol_ in _certain_atoms(step[1], step[2]):
+                        nm_ = _bit_fact(repo, fi, at_) if pol_ else None
+                        if nm_ is not None and (nm_ not in env or env[nm_] == P.sym(nm_)):
+                            boolsyms[nm_] = "a bit on this path (test `%s` holds)" % norm(at_)[:50]
+                            env[nm_] = P.sym(nm_)
                 if step[0] != "assign":
                     continue
                 nm, val = step[1], step[2]
@@ -242,6 +257,9 @@ def rule_boolean(repo, rule):
                     except (Undecidable, NeedCase):
                         env.pop(nm, None)
                         boolsyms.pop(nm, None)
+            for k_, why_ in explicit_.items():
+                boolsyms[k_] = why_
+                env[k_] = P.sym(k_)
             try:
                 p = Valuer(dict(env))._p(arg)
             except (Undecidable, NeedCase) as e:
@@ -273,6 +291,59 @@ def rule_boolean(repo, rule):
             rule.undecided(where, fi.fq, norm(c), und[0][1])
         else:
             rule.ok(where, fi.fq, verdicts[0][2] + ("  [%d paths]" % len(verdicts) if len(verdicts) > 1 else ""), verdicts[0][1])
+
+
+def _certain_atoms(test, pol):
+    """(atom, polarity) pairs that hold for certain when `test` evaluated to `pol`"""
+    if isinstance(test, ast.UnaryOp) and isinstance(test.op, ast.Not):
+        yield from _certain_atoms(test.operand, not pol)
+    elif isinstance(test, ast.BoolOp) and ((isinstance(test.op, ast.And) and pol) or (isinstance(test.op, ast.Or) and not pol)):
+        for v in test.values:
+            yield from _certain_atoms(v, pol)
+    else:
+        yield test, pol
+
+
+def _implies_bit(e, name):
+    """the expression, when true, says that `name` is a LinCombBool or one of the integers 0, 1"""
+    if isinstance(e, ast.Call) and norm(e.func) == "isinstance" and len(e.args) == 2 and norm(e.args[0]) == name:
+        kinds = e.args[1].elts if isinstance(e.args[1], ast.Tuple) else [e.args[1]]
+        return all(norm(k).split(".")[-1] in ("LinCombBool", "bool") for k in kinds)
+    if isinstance(e, ast.BoolOp) and isinstance(e.op, ast.Or):
+        return all(_implies_bit(v, name) for v in e.values)
+    if isinstance(e, ast.BoolOp) and isinstance(e.op, ast.And):
+        return any(_implies_bit(v, name) for v in e.values)
+    if isinstance(e, ast.Compare) and len(e.ops) == 1 and norm(e.left) == name:
+        c = e.comparators[0]
+        if isinstance(e.ops[0], (ast.Eq, ast.Is)):
+            return isinstance(c, ast.Constant) and c.value in (0, 1) and not isinstance(c.value, float)
+        if isinstance(e.ops[0], ast.In) and isinstance(c, (ast.Tuple, ast.List, ast.Set)):
+            return all(isinstance(x, ast.Constant) and x.value in (0, 1) and not isinstance(x.value, float) for x in c.elts)
+    return False
+
+
+def _bit_fact(repo, fi, atom):
+    """name N such that `atom` being true makes N a bit: isinstance(N, LinCombBool), or PRED(N) for a one-parameter helper of the
+    module whose only statement returns an expression that implies it"""
+    if isinstance(atom, (ast.BoolOp, ast.Compare)):
+        for nm in sorted({x.id for x in ast.walk(atom) if isinstance(x, ast.Name)}):
+            if _implies_bit(atom, nm):
+                return nm
+        return None
+    if not isinstance(atom, ast.Call) or atom.keywords:
+        return None
+    if norm(atom.func) == "isinstance" and len(atom.args) == 2 and isinstance(atom.args[0], ast.Name):
+        return atom.args[0].id if _implies_bit(atom, atom.args[0].id) else None
+    if isinstance(atom.func, ast.Name) and len(atom.args) == 1 and isinstance(atom.args[0], ast.Name):
+        h = repo.module(fi.fq.split(":")[0]).functions.get(atom.func.id)
+        if h is None:
+            return None
+        body = [s for s in h.node.body if not (isinstance(s, ast.Expr) and isinstance(s.value, ast.Constant))]
+        ps = [a.arg for a in h.node.args.args]
+        if len(body) == 1 and isinstance(body[0], ast.Return) and body[0].value is not None and len(ps) == 1 \
+                and _implies_bit(body[0].value, ps[0]):
+            return atom.args[0].id
+    return None
 
 
 def _root_of(n):
@@ -336,8 +407,13 @@ def rule_gadgets(repo, rule):
         arm.col_offset = arm.body[0].col_offset
     if arm is None:
         raise AnalysisError("__divmod__: no division constraint found")
-    allocs = {norm(a.targets[0]): a for a in arm.body if isinstance(a, ast.Assign) and isinstance(a.value, ast.Call)
-              and norm(a.value.func) == "PrivVal"}
+    # fresh witnesses of the arm (bound at its top level, or on every branch of a choice inside it: quo = PrivVal(0) / PrivVal(s // d))
+    allocs = {norm(a.targets[0]): a for st_ in arm.body for a in ast.walk(st_) if isinstance(a, ast.Assign) and isinstance(a.value, ast.Call)
+              and norm(a.value.func) == "PrivVal" and len(a.targets) == 1 and isinstance(a.targets[0], ast.Name)}
+    for nm_ in list(allocs):
+        binds_ = [a for st_ in arm.body for a in ast.walk(st_) if isinstance(a, ast.Assign) and len(a.targets) == 1 and norm(a.targets[0]) == nm_]
+        if not all(isinstance(b_.value, ast.Call) and norm(b_.value.func) == "PrivVal" for b_ in binds_):
+            allocs.pop(nm_)
     cons = [c for s in arm.body for c in ast.walk(s) if isinstance(c, ast.Call) and norm(c.func).split(".")[-1] in EMITTERS and not norm(c.func).startswith("backend.") and len(c.args) >= 3]
     divisor = dm.params[1]
     s_ = dm.params[0]
@@ -451,7 +527,43 @@ def rule_gadgets(repo, rule):
     if cnz is not None:
         rets_ = [r for r in ast.walk(cnz.node) if isinstance(r, ast.Return) and r.value is not None]
         from ..flatten import resolve_locals as _rlnz
-        if rets_ and all(norm(_rlnz(cnz.node, r.value)).replace(" ", "") in ("~%s.check_zero()" % cnz.params[0], "~(%s==0)" % cnz.params[0]) for r in rets_):
+        def _zero_test_method(name_, depth_=0):
+            """a no-argument method that IS a zero test: check_zero, or one whose every return is the result its own two constraints
+            force to [x == 0] (or another such method)"""
+            if name_ == "check_zero":
+                return True
+            h_ = lc.methods.get(name_)
+            if h_ is None or depth_ > 2 or len(h_.params) != 1:
+                return False
+            zr_ = zero_test_results(h_)
+            hr_ = [r for r in ast.walk(h_.node) if isinstance(r, ast.Return) and r.value is not None and own(h_, r)]
+            def one(e_):
+                e_ = _rlnz(h_.node, e_)
+                if isinstance(e_, ast.Name):
+                    return e_.id in zr_
+                if isinstance(e_, ast.Call) and norm(e_.func).split(".")[-1] == "LinCombBool" and e_.args:
+                    return norm(e_.args[0]) in zr_
+                if isinstance(e_, ast.Call) and isinstance(e_.func, ast.Attribute) and norm(e_.func.value) == h_.params[0] and not e_.args:
+                    return _zero_test_method(e_.func.attr, depth_ + 1)
+                return False
+            return bool(hr_) and all(one(r.value) for r in hr_)
+
+        def _complement_of_zero_test(e_):
+            e_ = _rlnz(cnz.node, e_, keep=set(zero_test_results(cnz)))
+            if norm(e_).replace(" ", "") == "~(%s==0)" % cnz.params[0]:
+                return True
+            if isinstance(e_, ast.UnaryOp) and isinstance(e_.op, ast.Invert):
+                # the zero test written out in place (a shared helper, inlined): the complement of the result its own two
+                # constraints force to [x == 0]
+                o_ = e_.operand
+                if isinstance(o_, ast.Call) and norm(o_.func).split(".")[-1] == "LinCombBool" and o_.args:
+                    o_ = o_.args[0]
+                if isinstance(o_, ast.Name) and o_.id in zero_test_results(cnz):
+                    return True
+            return isinstance(e_, ast.UnaryOp) and isinstance(e_.op, ast.Invert) and isinstance(e_.operand, ast.Call) \
+                and isinstance(e_.operand.func, ast.Attribute) and norm(e_.operand.func.value) == cnz.params[0] \
+                and not e_.operand.args and not e_.operand.keywords and _zero_test_method(e_.operand.func.attr)
+        if rets_ and all(_complement_of_zero_test(r.value) for r in rets_):
             rule.ok(cnz.loc(rets_[0]), cnz.fq, norm(rets_[0].value), "non-zero test = complement of the zero test")
         else:
             envz = {cnz.params[0]: P.sym("x"), "LinComb.ONE_SAFE": P.const(1), "LinComb.ONE": P.const(1), "LinComb.ZERO": P()}
@@ -751,6 +863,10 @@ def check(repo, rep, tier):
     r5 = rep.rule("R-C02-5", "emission is memoryless: constraints tie THIS call's operands, never a cached earlier result", floor=4)
     from .memoryless import rule_memoryless
     rule_memoryless(repo, r5)
+    r7 = rep.rule("R-C02-7", "hand-written divisions by a power of two bound the remainder by the divisor (shared with C14; expected count 0 "
+                  "on the pinned tree)", floor=0)
+    from .c14 import rule_rescale_gadgets
+    rule_rescale_gadgets(repo, r7)
     r6 = rep.rule("R-C02-6", "under a guard every constraint is enforced on its own: v*w = y + dummy with guard*dummy = 0 per constraint (shared with C07)", floor=3)
     from .c07 import rule_dummy_path
     rule_dummy_path(repo, r6)
